@@ -692,12 +692,23 @@ def call_extern(I, fn, args, kwargs):
         if isinstance(v, (SInt, SReal)):
             return nm == "isfinite"
         I.raise_("TypeError", nm)
+    if p == "datetime.datetime.strptime":
+        from .strings import strptime_model
+        return strptime_model(I, args[0], args[1])
     if p == "re.compile":
         return _i.RegexObj(args[0], args[1] if len(args) > 1 else 0)
-    if p == "re.search":
-        return _i.RegexObj(args[0], 0).run(I, "search", args[1])
+    if p in ("re.search", "re.match", "re.fullmatch"):
+        if not any(isinstance(a, Sym) for a in args):
+            m = getattr(_re, nm)(*args)
+            return None if m is None else _i.MatchObj([m.group(0)] + list(m.groups()))
+        return _i.RegexObj(args[0], args[2] if len(args) > 2 else 0).run(I, nm, args[1])
+    if p in ("re.escape", "re.split", "re.sub") and not any(isinstance(a, Sym) for a in args):
+        r = getattr(_re, nm)(*args)
+        return _i.PyList(r) if isinstance(r, list) else r
+    if p in ("re.MULTILINE", "re.M"):
+        return 8
     if p.startswith("re."):
-        return 8  # re.MULTILINE flag value (only flag used)
+        raise Outside("re." + nm)
     if p in ("unittest.mock.MagicMock", "unittest.mock.AsyncMock"):
         return _i.Opaque(nm)
     raise Outside(f"extern call {p}")
@@ -729,6 +740,11 @@ def to_float(I, v):
             return float(v)
         except ValueError:
             I.raise_("ValueError", "could not convert string to float")
+    if isinstance(v, SFloat):
+        return v
+    if isinstance(v, SStr) and I.cfg.int_model == "lexical":
+        from .strings import float_lexical
+        return float_lexical(I, v)
     if isinstance(v, SStr):
         if getattr(v, "origin_real", None) is not None:
             return v.origin_real
